@@ -39,3 +39,26 @@ Theorem C18_normalise_idempotent :
   forall l : list ptR, normalise OpsR (normalise OpsR l) = normalise OpsR l.
 Proof. exact normalise_idempotent. Qed.
 Print Assumptions C18_normalise_idempotent.
+
+(* points map consistently with the shapes (crossing-number membership test): translation, and scaling about any origin
+   with positive factors.  Rotation and reflection change the direction of the test ray; for those the statement is
+   checked on the implementation (PARTIAL: not proved). *)
+Theorem C18_mem_translate :
+  forall dx dy (l : list ptR) (p : ptR),
+    inside OpsR (translate OpsR dx dy l) (fst p + dx, snd p + dy) = inside OpsR l p.
+Proof. exact mem_translate. Qed.
+Print Assumptions C18_mem_translate.
+
+Theorem C18_mem_scale :
+  forall ox oy fx fy, 0 < fx -> 0 < fy -> forall (l : list ptR) (p : ptR),
+    inside OpsR (scale_about OpsR ox oy fx fy l) (ox + fx * (fst p - ox), oy + fy * (snd p - oy)) = inside OpsR l p.
+Proof. exact mem_scale. Qed.
+Print Assumptions C18_mem_scale.
+
+(* inside a device = inside the film and outside every hole; moved together with the device, a point keeps its side *)
+Theorem C18_in_device_translate :
+  forall dx dy film holes p,
+    in_device (translate OpsR dx dy film) (map (translate OpsR dx dy) holes) (fst p + dx, snd p + dy)
+    = in_device film holes p.
+Proof. exact in_device_translate. Qed.
+Print Assumptions C18_in_device_translate.
